@@ -38,6 +38,86 @@ CLAIMED = {
              "end time are not judged.",
         technique="Lean 4 proof over a hand-written model + bit-exact differential correspondence + run-level oracle",
         ref="§5 C17"),
+    "C13": dict(
+        text="Lean 4 theorems over a heap-of-cells model of TreeStateHandler/TreePhysicalState/TreeLiftingState (fresh allocation on copy, "
+             "aliasing on insert): isolation invariant for every operation history, extract shape/freshness, non-interference of "
+             "mutations through not-yet-inserted branches, insert read-back, unchanged global state between commits, independent-active "
+             "rule. Correspondence: random extract/mutate/insert/extract-active sessions against the real classes with deep snapshots "
+             "after every operation, plus real runs with the state handler wrapped (global state unchanged between commits).",
+        note="refines_functional (simulation by a pure value map) is not stated as one theorem; its observable consequences are. Python "
+             "set iteration order is not modelled (two-level dictionary order compared as sets). Trusted: Lean kernel + standard axioms, harness.",
+        technique="Lean 4 proof over a hand-written reference-store model + differential correspondence (operation sequences and real runs)",
+        ref="§5 C13"),
+    "C10": dict(
+        text="Lean 4 theorems: on an integer torus the veto domain translated by the active cell is exactly the non-nearby cells (each once), "
+             "nearby/non-nearby split all cells, and under the explicit occupancy invariant the three cell families partition all other "
+             "relevant units (no duplicates); for factor files: the parser accepts exactly well-formed files and the yielded in-states "
+             "are exactly the lines containing the active index instantiated once per other object (inter) or once (intra), each once; "
+             "shipped files well-formed by decide. Correspondence: real taggers on real occupancy/cells, real FactorTypeMaps on shipped and "
+             "generated files, bit-exact; Counter oracle on the implementation.",
+        note="That the real occupancy establishes the invariant is C11's; the float detour inside translate/relative_cell is tied by "
+             "correspondence to the integer torus. KeyError on a leaf mentioned by no line of an intra-object type is modelled as a loud "
+             "error outcome (outside the property; no shipped file affected).",
+        technique="Lean 4 proof over hand-written models + bit-exact differential correspondence + Counter oracle",
+        ref="§5 C10"),
+    "C18": dict(
+        text="Lean 4 theorems (exact reading, any n>=1, rates>=0, total>0): alias-table construction terminates, n rows, left-overs have "
+             "exactly the mean rate, per-item mass conservation, pointwise sampling rule, selection probability = rate/total (also as a "
+             "Lebesgue-measure statement), total = sum, zero-rate items never selected for draws > 0; handler: target = translate(active, "
+             "offset), proposal rate = total*|charge factor|*speed, confirmation bound is the stored bound of that offset/direction/sign. "
+             "Counterexample theorems (rational and binary64) for the draw-0.0 boundary. Correspondence bit-exact for table rows, sampling "
+             "under controlled draws, real leaf/composite cell-veto handlers on real cells; oracle: exact selection probabilities of the "
+             "implementation's own table.",
+        note="binary64 table satisfies mass conservation only up to rounding (tied by correspondence + tolerance (n+10)*2^-50). System-level "
+             "'veto cell is current' is covered by C09/C08 wiring clause, not here. Two known findings (draw exactly 0.0 selects a zero-rate "
+             "cell; then the handler's assert trips).",
+        technique="Lean 4 proof over a hand-written model + bit-exact differential correspondence + exact-probability oracle",
+        ref="§5 C18"),
+    "C15": dict(
+        text="Lean 4 theorems: exact reading (Q): corrected position is the unique representative in [0,L) congruent mod L, idempotent; "
+             "separation congruent, in [-L/2, L/2), minimal image; cubic and cuboid classes agree for equal lengths for EVERY scalar type "
+             "(so also binary64); rounding-abstract reading: 0 <= y <= L, |sep| <= L/2, idempotent-or-L; kernel-evaluated binary64 "
+             "counterexamples for the half-open bound. Correspondence bit-exact against both real setting classes (entry and vector forms, "
+             "error outcomes); Fraction oracle of every clause on the implementation.",
+        note="Known finding F1: correct_position_entry(x) == L for -ulp(L)/4 <= x < 0 (Python float % rounds), so [0,L) and idempotence "
+             "fail there in binary64. Rounding-abstract reading is not tied to Lean Float by proof (bit-exact run does that).",
+        technique="Lean 4 proof over a hand-written model + bit-exact differential correspondence + Fraction oracle",
+        ref="§5 C15"),
+    "C06": dict(
+        text="Lean 4 theorems over a bounds-checked array model of heap.c and models of HeapScheduler/ListScheduler, for every "
+             "protocol-respecting history of push/trash/get/pickle, any strict weak order on keys, any content of fresh memory, any counter "
+             "range W>=1: no out-of-block access (fault flag), heap order invariant, get returns a current finite event of minimal time, "
+             "trashed never returned, empty => error, heap and list scheduler agree on the returned time (same handler when the minimum is "
+             "unique), pickle round trip reproduces the array, counter-overflow path keeps exactly the new entry. Correspondence: real "
+             "HeapScheduler (freshly compiled heap.c) and ListScheduler, bit-exact per operation incl. growth, lazy deletion, counters "
+             "poked to 2^32, pickling; reference-dictionary oracle; ASan/UBSan replay of every history through heap.c.",
+        note="uint wrap of length/size excluded by length_le (histories shorter than 2^32-2); realloc failure and NaN times not modelled. "
+             "Memory safety of the compiled C is proved for the model and supported by the sanitizer replay.",
+        technique="Lean 4 proof (invariants + refinement) over a hand-written model + bit-exact differential correspondence + sanitizer replay",
+        ref="§5 C06"),
+    "C03": dict(
+        text="Lean 4 theorems over R (Mathlib HasDerivAt): inverse power, Lennard-Jones, displaced even power and the 1/r bound return the "
+             "directional derivative of their energy, linear in speed and charge product; exactly standard velocities are accepted; axis "
+             "permutation reduces direction d to the x routine; bending derivatives are the derivatives of the angle energy and sum to zero; "
+             "Ewald routine: trigonometric recurrence spec, oddness, Fourier periodicity, homogeneity in L, and (partial) derivative of the "
+             "TRUNCATED Ewald energy for any erfc with the right derivative. Correspondence: binary64 model (own erfc) vs real classes and "
+             "freshly compiled C at 1e-12/1e-10; oracle: Richardson finite differences of independently written energies, symmetry checks.",
+        note="PARTIAL: 'derivative of the fully converged lattice sum, independent of alpha' is a truncation-error statement not provable "
+             "here; probed numerically by the oracle only. libm rounding tied by tolerance, not bit-exact.",
+        technique="Lean 4 proof (calculus over R) over a hand-written model + tolerance-based differential correspondence + finite-difference oracle",
+        ref="§5 C03, §10"),
+    "C19": dict(
+        text="Lean 4 theorem resume_same: a deterministic client of the scheduler (the mediator with everything it owns) sees the same "
+             "answers for ever from two observationally equal scheduler states, for every client and every pair of implementations; "
+             "observational equality of the re-built heap is C06's pickle_id. Correspondence/oracle on real runs: dumping variants of "
+             "shipped configurations (C potentials, cells, composite objects; heap and list scheduler) are dumped at every dumping event, "
+             "each dump is resumed in a fresh interpreter through the repository's own resume.main(), and the continuation is compared "
+             "bit for bit (handlers, candidate times, out-states, whole global state, trash lists, samples, final random state) with "
+             "the uninterrupted run; the same run without the dumping tagger is compared with the run minus its dumping events.",
+        note="dill's faithfulness on ordinary Python objects and the re-construction of the C potentials are exercised by the real runs, "
+             "not modelled. The transparency clause is compared up to the first tie of two candidate times.",
+        technique="Lean 4 proof (observational-equivalence lemma) + differential replay of dumped/resumed real runs",
+        ref="§5 C19"),
 }
 
 PENDING_REASON = "check not built yet in this session (work in progress; see DESIGN.md §9 for the order)"
@@ -78,6 +158,17 @@ def main():
                  "theorem module + axiom audit -> correspondence model vs implementation -> property oracle on the implementation.",
     }
     json.dump(m, open(os.path.join(VERIF, "MANIFEST.json"), "w"), indent=1)
+    # root module of the library: everything a claimed check proves or runs (so that `lake build` in setup_cmd prebuilds it)
+    import importlib, sys
+    sys.path.insert(0, VERIF)
+    mods = set()
+    for i in sorted(CLAIMED):
+        pm = importlib.import_module(f"harness.props.{i.lower()}")
+        mods.update(getattr(pm, "THEOREM_MODULES", [f"JF.Props.{i}"]))
+    with open(os.path.join(VERIF, "lean", "JF.lean"), "w") as f:
+        f.write("-- generated by harness/manifest.py: the theorem modules of every claimed property\n")
+        for mname in sorted(mods):
+            f.write(f"import {mname}\n")
 
 
 if __name__ == "__main__":
